@@ -29,6 +29,10 @@ def histories(tier):
     return out
 
 
+def tier_is_thorough():
+    return os.environ.get("VERIF_TIER") == "thorough"
+
+
 def run_history(item):
     cfgd, ops, label = item
     seed = core.seed()
@@ -103,6 +107,35 @@ def run_history(item):
                     bad({"class": "harness_pause_kill_mismatch"}, "tree at pause %d differs from tree after kill at %d" % (i, i), point=i)
             finally:
                 core.rm(top2)
+    # ---- (D) kill, then restart: a new recorder process opens the same channel after the crash and records
+    #      again from the same start (same file periods); whatever it does with leftovers of the dead
+    #      session, the invariants on final-named files must still hold afterwards
+    if ops[0][0] == "open" and not any(o[0] == "open" for o in ops[1:]):
+        ops2 = [("open", {"uuid": "restarted-session"}), ("w", 0, 3), ("w", 40, 2), ("close",)]
+        m2 = rf.Model()
+        m2.open_session(rf.Cfg(**dict(cfg, uuid="restarted-session")))
+        for op in ops2[1:3]:
+            g, b, length = rf.op_blocks(op, m2.cursor)
+            m2.apply_write(g, b, rf.row_bytes(rf.values_for(cfg, seed, g, b, length)))
+        step = 1 if tier_is_thorough() else 2
+        for i in range(0, nops + 1, step):
+            top3 = core.new_scratch()
+            try:
+                host.run(top3, os.path.join(top3, cfg["ch"]), cfg, ops, seed, fsctl.plan(kill_at=i))
+                obs = crash.Observer(top3, cfg)
+                r4 = host.run(top3, os.path.join(top3, cfg["ch"]), cfg, ops2, seed, fsctl.plan())
+                allowed = dict(final)
+                allowed.update(m2.written)
+                # (a re-recorded continuous file legitimately holds fill where only the dead session had data)
+                errs, _ = obs.observe(allowed, "after kill at op %d and a restarted session" % i, fill_ok=True)
+                part["evaluations"] += 1
+                part["transitions"] += 1
+                part["states"].add(core.canon((label, "restart", i)))
+                part["outcomes"]["restart calls " + "".join("k" if c["status"] == "ok" else "x" for c in r4["calls"])] += 1
+                for key, detail in errs:
+                    bad(dict(key, restart=True), detail, point=i, restart=True)
+            finally:
+                core.rm(top3)
     part["traces"] += 1
     part["nontrivial"].add(core.canon((cfgd, ops)))
     if not part["samples"]:
@@ -125,7 +158,7 @@ def main(tier):
               "truncate, close, rename, mkdir, unlink) and the tree inspected (raw h5py on every final-named file, SHA-256 "
               "persistence, lsdrf, DigitalRFReader bounds + full read == union of finalized files); every write is also torn "
               "(half the bytes, then _exit); for one history per mode the process is really killed at every boundary and the "
-              "tree compared with the paused one. A point is non-trivial/distinct per (history, operation index, set of final files).")
+              "tree compared with the paused one; and after a real kill at every (quick: every other) boundary a new recorder process re-opens the channel and records the same periods again (kill-then-restart histories). A point is non-trivial/distinct per (history, operation index, set of final files).")
         % ("" if tier == "quick" else ", two sessions, single-sample calls"),
         assumptions=["crash = death of the process without loss of the OS page cache (the on-disk state after a kill at point i is what another process sees at point i)",
                      "operation stream of the HDF5 actually linked (system 1.10.8)"],
